@@ -2,7 +2,7 @@
 import io
 
 from harness import common, nsoracles, reader, sysimg, syslevel, sysprops
-from harness.props import c04, namesleaf
+from harness.props import c04, namesleaf, masterjolietleaf
 
 MODULE = 'C09'
 RECIPES = ['ptable_boundary', 'exact_fill', 'fat_dir_churn']
@@ -66,6 +66,7 @@ def name_limit_grid(ctx):
 def run(ctx):
     common.proof_stage(ctx, MODULE, common.theorems_of(MODULE))
     common.setup_impl_path()
+    masterjolietleaf.correspondence(ctx)
     namesleaf.leaf_correspondence(ctx, 'C09', symlinks=False, names=False, utf16=True)
     name_limit_grid(ctx)
     quick = ctx.tier == 'quick'
